@@ -213,7 +213,7 @@ def rest(ctx, chk, zvt, crates):
         wl = rules_c16.writer_leaves(d["serialize"])
         rl = rules_c16.reader_leaves(d["deserialize"], crates)
         nk = lambda x: tuple((0, 0) if y is None else ((1, y) if isinstance(y, int) else (2, str(y))) for y in x)
-        w = sorted(((l[0], min(l[1], 65535), l[2], l[3], l[4]) for l in wl if not l[5] and l[0] <= 65535), key=nk)
+        w = rules_c16.writer_forms(wl)
         chk.require(w == sorted(rules_c16.SPEC["zvt_builder::length::Adpu"], key=nk), "C04-d/writer-header", "Adpu::serialize",
                     "writer header forms %s differ from the specification" % rules_c16.fmt_w(w), "direct <0xFF | 0xFF + LE u16", d["serialize"].sp())
         ext = [l for l in rl if l[2] == "extended"]
